@@ -202,6 +202,11 @@ class ExternalVariableCollector(NodeVisitor):
         self.used -= self.funcnames
 
     def visit_FunctionDef(self, node):
+        if self.funcnames:
+            # Not the function being transformed, but a function defined
+            # in its body, which sets a variable of that name
+            self.provenance.setdefault(node.name, "body")
+            self.assigned.add(node.name)
         self.funcnames.add(node.name)
         self.generic_visit(node)
 
